@@ -27,6 +27,7 @@ RULE = ("stream 'token': phone-number strings (digits of length 1..20, leading z
         "opens to the request's parameters in order under standard decoding, cc / in are the number's parts, token = independent HMAC-SHA1 of the "
         "national number. distinct = distinct input.")
 RULE += (" The order in which parameters were added is recorded independently of the request's own list (which a send must not rearrange).")
+RULE += (' Token cases with environment subclasses that override key / signature / class digest.')
 ASSUMPTIONS = ["SHA-1 (hashlib) is the hash function; X25519 agreement is symmetric; AES-GCM decrypt inverts encrypt (cryptography / python-axolotl curve)",
                "lone surrogates are rejected by urllib.parse.quote and are outside the model", "freshness of the ephemeral key is a runtime property: exercised, not proved"]
 
@@ -61,6 +62,10 @@ def cases(chk):
     for _ in range(chk.scale(300, 20000)):
         n = r.randint(1, 20)
         yield "token", {"phone": "".join(r.choice("0123456789") for _ in range(n))}
+    # an environment of the application's own (a newer WhatsApp build: another key, signature, class digest — the documented way to keep up with
+    # WhatsApp is to subclass the environment and override the constants): the token is computed from THAT environment's constants
+    for i in range(chk.scale(12, 300)):
+        yield "token", {"phone": "".join(r.choice("0123456789") for _ in range(r.randint(5, 13))), "env": {"key": i % 3 != 1, "sig": i % 3 != 2, "cls": i % 2 == 0, "seed": i}}
     for b in range(256):
         yield "value", {"kind": "bytes", "hex": bytes([b]).hex()}
         yield "value", {"kind": "str", "cps": [b]}
@@ -156,6 +161,31 @@ def run_case(chk, stream, case):
     fails = []
     if stream == "token":
         ph = case["phone"]
+        if case.get("env"):
+            import random
+            from yowsup.env.env_android import AndroidYowsupEnv
+            rr = random.Random(case["env"]["seed"])
+            ov = {}
+            if case["env"]["key"]:
+                ov["_KEY"] = base64.b64encode(bytes(rr.randrange(256) for _ in range(80))).decode()
+            if case["env"]["sig"]:
+                ov["_SIGNATURE"] = base64.b64encode(bytes(rr.randrange(256) for _ in range(rr.choice([100, 822])))).decode()
+            if case["env"]["cls"]:
+                ov["_MD5_CLASSES"] = base64.b64encode(bytes(rr.randrange(256) for _ in range(16))).decode()
+            Sub = type("NewBuildEnv", (AndroidYowsupEnv,), ov)
+            key = base64.b64decode(ov.get("_KEY", AndroidYowsupEnv._KEY))
+            sig = base64.b64decode(ov.get("_SIGNATURE", AndroidYowsupEnv._SIGNATURE))
+            cls = base64.b64decode(ov.get("_MD5_CLASSES", AndroidYowsupEnv._MD5_CLASSES))
+            chk.hit("token:own-environment")
+            try:
+                tok = Sub().getToken(ph)
+            except Exception as e:
+                return [oracle("C20:token-raises", "getToken(%r) in an environment subclass raises %s: %s" % (ph, type(e).__name__, e))]
+            ref = base64.b64encode(stdhmac.new(key[:64], sig + cls + ph.encode(), hashlib.sha1).digest())
+            if tok != ref:
+                return [oracle("C20:token-ignores-the-environments-constants", "phone %r, an environment subclass overriding %s: token %s, the independent HMAC-SHA1 over THAT "
+                               "environment's constants is %s%s" % (ph, sorted(ov), tok, ref, " (it is the stock environment's token)" if tok == chk.env.getToken(ph) else ""))]
+            return []
         try:
             tok = chk.env.getToken(ph)
         except Exception as e:
